@@ -375,6 +375,20 @@ func c07Send(c *Ctx) {
 			c.R.Check(len(writes) == 0, "R-C07-5", fn+":unicast-only-multicast", fn, c.pos(send.Pos()), fmt.Sprintf("%d WriteTo call(s) under UnicastOnly ∧ dst.IsMulticast()", len(writes)),
 				"no transmission", "a unicast-only interface transmits to a multicast destination")
 		}
+		// a transmission that failed is reported to the caller: sendWorker counts from send's result, so an
+		// error swallowed here is counted as an RA sent and the solicitation stays unanswered
+		if p.Ret != nil && len(p.Results) == 1 {
+			for _, w := range writes {
+				wv, _ := w.(ssa.Value)
+				for _, a := range p.Atoms {
+					x, y, op, ok := effCmp(a)
+					if ok && exprIsNil(y) && op == token.NEQ && x.V == wv && wv != nil {
+						c.R.Check(!exprIsNil(p.Results[0]), "R-C07-5", fn+":write-error-returned@"+pathShape(p), fn, c.pos(p.Ret.Pos()), "WriteTo failed and send returns "+p.Results[0].String(),
+							"a failed WriteTo makes send return an error", "a failed transmission is counted as sent and its solicitation is lost silently")
+					}
+				}
+			}
+		}
 		for _, w := range writes {
 			nW++
 			args := w.Common().Args
